@@ -574,13 +574,13 @@ def serDoc (fb : Bool) : List (Str × Bool) → Store → Mgr → Doc → List (
 /-! ### the RDF/XML serializer (`XMLSerializer.__bindings`, `predicate`) -/
 
 /-- `compute_qname_strict(u)` (generate) for a sequence of IRIs; the first exception ends it -/
-def strictSeq : List Str → Store → Mgr → List QN → Store × Mgr × Except Err (List QN)
+def strictSeq : List Str → Store → Mgr → List (Str × QN) → Store × Mgr × Except Err (List (Str × QN))
   | [], st, m, acc => (st, m, .ok acc)
   | u :: r, st, m, acc =>
     let q := Mgr.computeQnameStrict st m u true
     match q.2.2 with
     | .error e => (q.1, q.2.1, .error e)
-    | .ok a => strictSeq r q.1 q.2.1 (acc ++ [a])
+    | .ok a => strictSeq r q.1 q.2.1 (acc ++ [(u, a)])
 
 def strRdf : Str := [114, 100, 102]   -- "rdf"
 /-- the constant `RDFNS` of rdfxml.py -/
@@ -589,13 +589,17 @@ def rdfNs : Str := [104, 116, 116, 112, 58, 47, 47, 119, 119, 119, 46, 119, 51, 
 /-- `XMLSerializer.serialize`: `__bindings()` — `compute_qname_strict(p)` for every predicate of the graph
     (`preds`: the set of predicates in its iteration order), collected in a dict prefix ↦ namespace, `rdf`
     added (AssertionError if `rdf` is there with another namespace) — gives the `xmlns` declarations; then
-    `qname_strict(p)` for the predicate of every statement written (`stmts`). -/
-def serXml (preds stmts : List Str) (st : Store) (m : Mgr) : Store × Mgr × Except Err (List (Str × Str)) :=
+    `qname_strict(p)` for the predicate of every statement written (`stmts`).  Result: the `xmlns` table
+    and, per statement, the predicate with the (prefix, namespace, local) its element name is made of. -/
+def xmlTable (ans : List (Str × QN)) : List (Str × Str) := ans.foldl (fun t a => aset t a.2.1 a.2.2.1) []
+
+def serXml (preds stmts : List Str) (st : Store) (m : Mgr) :
+    Store × Mgr × Except Err (List (Str × Str) × List (Str × QN)) :=
   let r1 := strictSeq preds st m []
   match r1.2.2 with
   | .error e => (r1.1, r1.2.1, .error e)
   | .ok ans =>
-    let t := ans.foldl (fun t a => aset t a.1 a.2.1) []
+    let t := xmlTable ans
     let t' : Option (List (Str × Str)) :=
       match alookup t strRdf with
       | some n => if n = rdfNs then some t else none
@@ -606,7 +610,7 @@ def serXml (preds stmts : List Str) (st : Store) (m : Mgr) : Store × Mgr × Exc
       let r2 := strictSeq stmts r1.1 r1.2.1 []
       match r2.2.2 with
       | .error e => (r2.1, r2.2.1, .error e)
-      | .ok _ => (r2.1, r2.2.1, .ok t')
+      | .ok names => (r2.1, r2.2.1, .ok (t', names))
 
 /-! ### histories -/
 
@@ -695,7 +699,8 @@ def St.step (s : St) : Op → St × Out
     let r := serXml preds stmts s.store (s.mgr i)
     (s.put i (r.1, r.2.1),
       match r.2.2 with
-      | .ok t => .doc t
+      -- observed: the xmlns table and, marked `!`, every element name written with the predicate it stands for
+      | .ok (t, names) => .doc (t ++ names.map (fun x => (33 :: showQname x.2, x.1)))
       | .error e => .err e)
   | .sertrig fb cs =>
     -- the harness calls `reset()` on both managers right after the serialisation
